@@ -8,6 +8,7 @@ From FB.Spec Require Import JsonSpec.
 From FB.Gen Require Import JsonUtilGen.
 From FB.Model Require Import Builder PathNorm.
 From FB.Proofs Require Import JsonLaws PathNormLaws.
+From FB.Proofs Require CacheGenLaws.   (* T1g: the model routines are equal to the translation of the source (Gen/CacheGen.v) *)
 Import ListNotations.
 Open Scope string_scope.
 Open Scope list_scope.
